@@ -30,8 +30,21 @@ def match_brace(s,i):
             if d==0: return j
     raise ValueError('unbalanced')
 
+# The mutex field(s) and guard-returning accessor(s) are discovered from the source (see discover()); defaults below.
 LOCK=re.compile(r'(\bself\s*\.\s*rng\s*\.\s*lock\s*\(\s*\)|\b\w+\s*\.\s*rng\s*\(\s*\))')
 SUSP=re.compile(r'try_lock|\.rng\b(?!\s*(\.\s*lock\s*\(\s*\)|\(\s*\)))|Mutex::|RwLock|lock\(\)')
+ACCESSORS=['rng']
+
+def discover(src):
+    """names of the struct fields of type Mutex<..> and of the methods returning a MutexGuard"""
+    global LOCK, SUSP, ACCESSORS
+    fields=sorted(set(re.findall(r'\b(\w+)\s*:\s*(?:std::sync::)?Mutex\s*<',src)))
+    acc=sorted(set(re.findall(r'\bfn\s+(\w+)\s*\([^)]*\)\s*->\s*(?:std::sync::)?MutexGuard\b',src)))
+    if not fields: return
+    f='|'.join(map(re.escape,fields)); a='|'.join(map(re.escape,acc)) if acc else '(?!x)x'
+    LOCK=re.compile(r'(\bself\s*\.\s*(?:%s)\s*\.\s*lock\s*\(\s*\)|\b\w+\s*\.\s*(?:%s)\s*\(\s*\))'%(f,a))
+    SUSP=re.compile(r'try_lock|\.(?:%s)\b(?!\s*(\.\s*lock\s*\(\s*\)|\(\s*\)))|Mutex::|RwLock|lock\(\)'%('|'.join(map(re.escape,fields+acc))))
+    ACCESSORS=acc
 
 def functions(src):
     fns={}
@@ -76,7 +89,7 @@ def events_of_expr(s, methods):
     items=[]  # (pos, kind, payload)
     for m in LOCK.finditer(s): items.append((m.start(),'lock',None))
     for m in re.finditer(r'\b(?:self|cc)\s*\.\s*(\w+)\s*\(',s):
-        if m.group(1) in methods and m.group(1)!='rng': items.append((m.start(),'call',m.group(1)))
+        if m.group(1) in methods and m.group(1) not in ACCESSORS: items.append((m.start(),'call',m.group(1)))
     # nested blocks { ... } (closures, if/else): analyse recursively, in place
     i=0
     while True:
@@ -100,6 +113,7 @@ def events_of_expr(s, methods):
 
 def skeletons(paths):
     src='\n'.join(strip(open(p).read()) for p in paths)
+    discover(src)
     fns=functions(src)
     api=['setup','update_msk','rekey','prune_master_secret_key','generate_user_secret_key','refresh_usk','recaps',
          'encaps','decaps','encrypt','decrypt','generate','rng']
@@ -109,7 +123,7 @@ def skeletons(paths):
     for name in list(api)+[n for n in fns if n not in api]:
         for k,body in enumerate(fns.get(name,[])):
             key=name if len(fns[name])==1 else f'{name}_{k}'
-            if name=='rng': sk[key]=['AcqRet']; continue
+            if name in ACCESSORS: sk[key]=['AcqRet']; continue
             sk[key]=events_of_block(body, methods)
     return sk
 
@@ -125,7 +139,7 @@ def inline(sk):
                 out+=best
             else: out.append(e)
         return out
-    return {k:expand(v) for k,v in sk.items() if k!='rng' and (k in API_OUT or k.split('_')[0] in API_OUT or any(k.startswith(a+'_') for a in API_OUT))}
+    return {k:expand(v) for k,v in sk.items() if k not in ACCESSORS and (k in API_OUT or k.split('_')[0] in API_OUT or any(k.startswith(a+'_') for a in API_OUT))}
 API_OUT=['setup','update_msk','rekey','prune_master_secret_key','generate_user_secret_key','refresh_usk','recaps','encaps','decaps','encrypt','decrypt','generate']
 
 def coq_file(sk):
